@@ -477,10 +477,10 @@ static void op_put(World &W, const Json &op) {
         if (s.cfg.ct == ref::CT_CRC32 && (u64) F.size + ref::HDR <= flen) {
             u32 want = legacy ? ref::crc_legacy(pl, F.size) : ref::crc_std(pl, F.size);
             if (F.chksum0 == 0 || F.chksum0 == 0xffffffffu) W.probe("put.special-stored-crc");
-            if (F.chksum0 != want) W.viol("C10", legacy ? "encode/payload-crc-not-legacy" : "encode/payload-crc-wrong", "fragment " + std::to_string(i) + ": stored payload checksum differs from the CRC-32 model");
+            if (F.chksum0 != want) W.viol("C10 C15", legacy ? "encode/payload-crc-not-legacy" : "encode/payload-crc-wrong", "fragment " + std::to_string(i) + ": stored payload checksum differs from the CRC-32 model");
         }
         u32 wantm = legacy ? ref::crc_legacy(f, ref::META) : ref::crc_std(f, ref::META);
-        if (ref::ld32(f + ref::OFF_METACRC) != wantm) W.viol("C10 C09", legacy ? "encode/meta-crc-not-legacy" : "encode/meta-crc-wrong", "fragment " + std::to_string(i) + ": stored metadata checksum differs from the CRC-32 model");
+        if (ref::ld32(f + ref::OFF_METACRC) != wantm) W.viol("C10 C09 C15", legacy ? "encode/meta-crc-not-legacy" : "encode/meta-crc-wrong", "fragment " + std::to_string(i) + ": stored metadata checksum differs from the CRC-32 model");
         if (!ref::accept_consume(f)) W.viol("C09 C12", "encode/fresh-header-unacceptable", "fragment " + std::to_string(i));
         if (is_invalid_fragment(s.desc, i < k ? ed[i] : ep[i - k]) != 0)
             W.viol("C12 C10", "fresh-fragment-invalid", "fragment " + std::to_string(i) + " just encoded does not validate");
@@ -662,9 +662,9 @@ static void op_repair(World &W, const Json &op) {
                     bool lg = env_legacy(W);
                     const u8 *pl = outb + ref::HDR; u32 sz = ref::ld32(outb + ref::OFF_SIZE);
                     u32 want = lg ? ref::crc_legacy(pl, sz) : ref::crc_std(pl, sz);
-                    if (ref::ld32(outb + ref::OFF_CHKSUM) != want) W.viol("C10", "reconstruct/payload-crc-flavour", "reconstructed fragment's payload CRC is not the flavour the switch selects");
+                    if (ref::ld32(outb + ref::OFF_CHKSUM) != want) W.viol("C10 C15", "reconstruct/payload-crc-flavour", "reconstructed fragment's payload CRC is not the flavour the switch selects");
                     u32 wm = lg ? ref::crc_legacy(outb, ref::META) : ref::crc_std(outb, ref::META);
-                    if (ref::ld32(outb + ref::OFF_METACRC) != wm) W.viol("C10", "reconstruct/meta-crc-flavour", "reconstructed fragment's metadata CRC is not the flavour the switch selects");
+                    if (ref::ld32(outb + ref::OFF_METACRC) != wm) W.viol("C10 C15", "reconstruct/meta-crc-flavour", "reconstructed fragment's metadata CRC is not the flavour the switch selects");
                 }
                 if (rc == 0 && !have_dest) {
                     // a fragment the instance just reconstructed validates as good (C12) and carries a right CRC (C10)
